@@ -79,8 +79,10 @@ static lzma_ret
 c11_stub_init(lzma_stream *strm, c11_stub **handle, unsigned mask)
 {
 	lzma_next_strm_init(c11_stub_coder_init, strm, handle);
+	// like the real init functions: only ENABLE the supported actions; clearing is lzma_strm_init()'s job
 	for (unsigned a = 0; a <= LZMA_ACTION_MAX; ++a)
-		strm->internal->supported_actions[a] = (mask >> a) & 1;
+		if ((mask >> a) & 1)
+			strm->internal->supported_actions[a] = true;
 	return LZMA_OK;
 }
 
